@@ -225,4 +225,21 @@ PROPS = {
         "components": {"real": ["service.HTTPService.ServeHTTP, service.GetHTTPRequest, service.Service.ProcessRequest", "sys.System", "core"], "stub": STUB_COMMON + ["net/http server loop (handlers are called directly with httptest recorders)"]},
         "assumptions": ["generated ids are compared as 'generated'"],
     },
+    "C15": {
+        "level": "exploration",
+        "build": "plain",
+        "tiers": tiers(2500, 60, 60000, 900),
+        "rule": "2-3 locations under sys.System (cache TTL forever) with cron in {SimCron persistent, SimCron ephemeral, the real cron.InternalCron on the fake clock} "
+                "and state in {indexed, linear}; 4-14 operations - add a scheduled rule (+Ns, !RFC3339, every 2 s, every 5 s; optional ttl; optional deleteWith an "
+                "anchor fact), overwrite it by a scheduled rule / a when-rule / a plain fact, RemRule, delete the anchor (cascade), Clear, restart the engine over "
+                "the same storage, duplicate ticks and stale ticks (SimCron) - with equal ids in different locations and 0.1-4 s of simulated time between "
+                "operations; callers use a fresh context per request or one shared context. Every rule action records an execution fact carrying "
+                "location/id/generation. At a checkpoint after every operation and every simulated second the number of executions of every rule generation "
+                "must equal the number of occurrences due while it was registered and live (completeness and soundness), no execution may appear in another "
+                "location, and a one-shot rule that has run is gone. Non-trivial: a scheduled rule executed; distinct = distinct (cron kind, schedule kind, "
+                "executions, removed) tuples.",
+        "components": {"real": ["sys.System, cron.AddHooks, cron.InternalCron + cron.Cron (real, fake clock)", "core incl. RuleDone / trigger! dispatch, otto actions"], "stub": STUB_COMMON + ["SimCron (harness Cronner keyed by location+id; delivers ticks, duplicate and stale ticks)"]},
+        "assumptions": ["after a restart every location is used again at once (an ephemeral cron can only re-register a location when it is loaded)",
+                        "with an ephemeral cron a +d schedule counts from the re-registration"],
+    },
 }
